@@ -113,7 +113,7 @@ add("impl", "file", "enum e%d : unsigned char { A%d, B%d = 255, C%d };", "enum e
 add("lang", "block", "{ extern long gi; }", "{ extern int gf; }", "{ extern int gi(void); }", "{ extern void gf(void); }", "{ extern const int gi; }", "{ extern int garr[5]; }",
     "{ int gfn2(int); }", "{ extern struct hs gu; }", "{ { extern double gd2%d; } { extern float gd2%d; } }"[:0] or "{ extern float gd; }")
 add("lang", "file", "static int sk%d; void sf%d(void) { int sk%d; { extern int sk%d; } }", "int la%d __asm__(\"x%d\"); void lf%d(void) { extern int la%d __asm__(\"y%d\"); }",
-    "typedef int tk%d; void tf%d(void) { extern int tk%d; }"[:0] or "enum { ek%d }; void ef%d(void) { extern int ek%d; }")
+    "struct { int a%d; };", "int; int q%d;", "const int;", "_Noreturn int nr%d;", "static inline int si%d;", "struct hs;;"[:0] or "long;")
 
 # an alignment specifier may not be weaker than the alignment of the *declared* type, which the declarator can raise (6.7.5p4)
 add("lang", "file", "_Alignas(4) int *q%d;", "_Alignas(2) short sa%d, *ps%d;", "static _Alignas(1) char *tab%d[4];", "_Alignas(4) long (*pa%d)[2];", "_Alignas(4) int (*pf%d)(void);", "_Alignas(int) void *pv%d;",
